@@ -41,6 +41,8 @@ pub fn meta(prop: &str) -> Option<Meta> {
         "C06" => m("exploration", "page chains (page sizes 1..7 through the hook; 1000 in the thorough tier) started on forked histories with 0-2 events between consecutive page requests drawn from {best chain grows, competing fork grows, ancestors stabilise, the chain of the first tip is discarded, upgrade}, plus forged and random page blobs; distinct = fingerprint of (event sequence, pages, elements, tree shape)", 35.0, 600.0),
         "C08" => m("fault_enumeration", "scripted histories replayed under per-round instruction budgets (random, pause-everywhere, and for a designed small block every subset of pause positions) against an unsliced twin; full user-visible snapshot compared at every pause point with the one taken before the ingestion began; distinct = distinct (history, pause set) pairs", 45.0, 900.0),
         "C10" => m("exploration", "block-source responses of 1-6 elements delivered through the real heartbeat path with one bad element (18 classes: random/empty/truncated bytes, trailing bytes, duplicates of unstable/anchor/stable blocks, orphan, child of a stable-only ancestor, future/old timestamp, wrong or excessive bits, bad PoW, bad merkle root, no coinbase, no transactions, duplicated transactions) at every position, valid blocks before and after it, and garbage announced headers; distinct = (class, position, suffix length, tree size)", 35.0, 600.0),
+        "C16" => m("exploration", "per-call conservation monitor on the mock cycles ledger (hook): random and default fee tables (zeros, maximum equal to base, maximum below the computed fee) x instruction counts set through the mock counter x error outcomes x attached cycles {maximum, maximum-1, more, 0}; plus the finite comparison of the client's cost_* constants with the default tables (3 networks x 5 endpoints, send_transaction lengths 0..10^6 stepped); distinct = (endpoint, charge, enough cycles, trapped, request error, instructions)", 25.0, 300.0),
+        "C19" => m("exploration", "serialisations of generated legacy/segwit transactions and, for each, every truncation, 1-8 byte extensions, prefixes, two transactions back to back, every single-bit flip (small transactions), random bytes, zero-input encodings; access flag x requested network matrix; verdict compared with an own strict BIP144 parser (three-valued) and the forward log (hook); distinct = (family, verdict, allowed, length)", 25.0, 300.0),
         "C12" => m("exploration", "valid regtest blocks with every transaction count 1..40 (legacy and witness-carrying) and, for each, the complete families of merkle-preserving duplications (every level with an odd group count, and compositions), adjacent swaps, single removals, coinbase moved/duplicated/absent, replaced header root; verdict of BlockValidator::validate_block and of state::insert_block compared with an own merkle/uniqueness checker over the serialised bytes; distinct = (family, tx count, resulting tx count, witness)", 30.0, 600.0),
         "C13" => m("fault_enumeration", "the harness is the scheduler at the single await point (hook): random schedules of heartbeats / replies (complete 0-3 blocks, partial with 0,1,2,3,17,255 follow-ups at arbitrary split points, rejects) / queries / upgrades over a universe of valid regtest blocks served by an honest adapter model, then a reject-free drain with a step bound; plus all op sequences up to a length bound over a 6-letter alphabet; distinct = distinct op sequences", 45.0, 900.0),
         "C07" => m("exploration", "all (start,end) pairs up to tip+2 on every state of histories (sampled when tip > 40), also at pause points of sliced ingestions and after upgrades; distinct = (class, start, last, tip, stable height, paused)", 35.0, 600.0),
@@ -62,6 +64,11 @@ pub fn run(ctx: &mut Ctx) {
         "C01" | "C02" | "C03" | "C04" | "C05" | "C07" | "C15" | "C20" => lane_history(ctx),
         "C06" => crate::c06::lane_pages(ctx),
         "C10" => crate::c10::lane_admit(ctx),
+        "C16" => {
+            crate::c16::lane_client_table(ctx);
+            crate::c16::lane_cycles(ctx);
+        }
+        "C19" => crate::c19::lane_send(ctx),
         "C12" => {
             let b = ctx.budget_s;
             ctx.budget_s = b * 0.7;
